@@ -158,6 +158,30 @@ def oracle_once(cfg, ex):
     return []
 
 
+def oracle_profile(cfg, ex):
+    """C20 behind thread prefetch: transparent, and the shared counters add up on every schedule."""
+    out = oracle_values(cfg, ex)
+    if out:
+        return out
+    n = cfg['n']
+    fail = M.normalise_fail(cfg.get('fail_fn'))
+    for rec in ex.rounds:
+        counts = rec.get('profile_counts')
+        if counts is None:
+            return [('no-counters', 'the profiling wrapper exposes no counters')]
+        if not fail:
+            if any(c != [n, 0] for c in counts):
+                return [('wrong-hits', f'per-stage [hits, failed] {counts}; every stage delivered {n} examples, none failed')]
+        else:
+            p = min(fail)
+            top, rest = counts[0], counts[1:]
+            if top != [p + 1, 1]:
+                return [('wrong-hits', f'prefetch stage [hits, failed] = {top}; {p} examples and one failure were fetched')]
+            if rest and (rest[0][1] != 1 or not (p + 1 <= rest[0][0] <= n)):
+                return [('wrong-failed-hits', f'mapped stage [hits, failed] = {rest[0]}; exactly one application failed')]
+    return []
+
+
 def oracle_bound(cfg, ex):
     """C07: read-ahead bounded by buffer_size at every prefix of the event log."""
     prob = sched_problem(ex)
